@@ -40,7 +40,9 @@ ASSUMPTIONS = [
     "a `simple` key (AlwaysTrue, version-less atom) matches every package whose key selects the list it is stored in; checked per case",
 ]
 RULE = ("random chunk sequences and random histories of ChunkedDataDict operations (update_from_stream of global / category / atom chunks, "
-        "add_bare_global, merge of a recursively built dict, optimize, freeze, clone) over flags incl. USE_EXPAND names, globs ('foo_*' as a "
+        "add_bare_global, merge of a recursively built dict, optimize, freeze, clone; forked histories: a mutable or frozen dict is cloned and "
+        "up to four branches keep being fed different entries, merged into each other, optimized, frozen, each rendered against its own "
+        "history) over flags incl. USE_EXPAND names, globs ('foo_*' as a "
         "positive), '-*' and '-PREFIX_*'; rendered for three packages (two versions of one key, one other key) and random pre_defaults; "
         "user package.use token lines (plain tokens, '-*', 0-3 `NAME:` sections with values, '-*' inside sections, repeated and lower-case "
         "headers, rarely invalid tokens / odd headers) through the real package_use_splitter + pkg_use, and whole configurations (1-6 such "
@@ -283,6 +285,181 @@ def run(ctx):
                 if (x in got) != h:
                     ctx.violation(qc, f"flag {x!r}: render_pkg says {x in got}; applying the entries of the history in order says {h}")
                     break
+
+
+    # ------------------------------------------------------------------ forked histories: clones that live on next to their source
+    # A dict is cloned (still mutable / frozen, with and without unfreeze) and BOTH keep being used: the branches are fed different
+    # entries (package chunks, globals incl. -* and -PREFIX_*, merges of freshly built dicts and of each other), optimized, frozen,
+    # forked again.  Each branch must render, for every package, exactly the entries fed to *it* (the shared prefix + its own tail)
+    # in order: compared with the Lean model/`holds` of the branch's own flat history and with a fresh dict fed only that history.
+    # A case is a replayable script of steps {"b": branch, "op": ...}.
+    def gen_feed(b):
+        r = rng.random()
+        if r < 0.6:
+            kid = rng.randrange(len(W.keys))
+            neg, pos = gen_np(rng, 0.12 if not W.simple(kid) else 0.35)
+            return {"b": b, "op": "update", "kid": kid, "neg": neg, "pos": pos}
+        neg, pos = gen_np(rng, 0.4)
+        return {"b": b, "op": "bare", "neg": neg, "pos": pos}
+
+    def gen_script():
+        script, frozen = [], [False]
+        for _ in range(rng.choice([0, 1, 2, 3, 4, 5])):          # the shared prefix
+            script.append(gen_feed(0))
+        for _ in range(rng.randint(3, 12)):
+            b = rng.randrange(len(frozen))
+            r = rng.random()
+            if len(frozen) < 4 and (frozen[b] or r < (0.5 if len(frozen) == 1 else 0.12)):
+                unfreeze = rng.random() < 0.6 if frozen[b] else rng.random() < 0.3
+                script.append({"b": b, "op": "fork", "unfreeze": unfreeze})
+                frozen.append(frozen[b] and not unfreeze)
+            elif frozen[b]:
+                if r < 0.5:
+                    script.append({"b": b, "op": "optimize", "cache": rng.random() < 0.3})
+            elif r < 0.72:
+                script.append(gen_feed(b))
+            elif r < 0.78 and len(frozen) > 1:
+                script.append({"b": b, "op": "merge_branch", "src": rng.choice([x for x in range(len(frozen)) if x != b])})
+            elif r < 0.83:
+                script.append({"b": b, "op": "merge_new", "freeze": rng.random() < 0.5,
+                               "script": [dict(gen_feed(0), b=0) for _ in range(rng.randint(1, 3))]})
+            elif r < 0.92:
+                script.append({"b": b, "op": "optimize", "cache": rng.random() < 0.3})
+            else:
+                script.append({"b": b, "op": "freeze"})
+                frozen[b] = True
+        return script
+
+    def feed(d, ops, st):
+        if st["op"] == "update":
+            d.update_from_stream([W.chunk(st["kid"], st["neg"], st["pos"])])
+            ops.append(dict(W.cj(st["kid"], st["neg"], st["pos"], with_cp=True), op="update"))
+        else:
+            d.add_bare_global(st["neg"], st["pos"])
+            ops.append({"op": "bare", "neg": list(st["neg"]), "pos": list(st["pos"])})
+
+    def copy_ops(ops):
+        return [dict(o, ops=copy_ops(o["ops"])) if o["op"] == "merge" else dict(o) for o in ops]
+
+    def run_script(script):
+        """-> [(dict, flat model ops of that branch)]"""
+        br = [[misc.ChunkedDataDict(), []]]
+        for st in script:
+            d, ops = br[st["b"]]
+            op = st["op"]
+            if op in ("update", "bare"):
+                feed(d, ops, st)
+            elif op == "fork":
+                ctx.count("fork_%s%s" % ("frozen" if d.frozen else "mutable", "_unfreeze" if st["unfreeze"] else ""))
+                br.append([d.clone(unfreeze=True) if st["unfreeze"] else d.clone(), copy_ops(ops)])
+            elif op == "optimize":
+                d.optimize(cache={} if st["cache"] else None)
+                ops.append({"op": "optimize"})
+            elif op == "freeze":
+                d.freeze()
+            elif op == "merge_branch":
+                d.merge(br[st["src"]][0])
+                ops.append({"op": "merge", "ops": copy_ops(br[st["src"]][1])})
+            elif op == "merge_new":
+                o, oo = misc.ChunkedDataDict(), []
+                for sub in st["script"]:
+                    feed(o, oo, sub)
+                if st["freeze"]:
+                    o.freeze()
+                d.merge(o)
+                ops.append({"op": "merge", "ops": oo})
+            else:
+                raise ValueError(op)
+        return br
+
+    def rebuild(ops):
+        """a fresh dict fed only the entries of one flat history"""
+        d = misc.ChunkedDataDict()
+        for o in ops:
+            if o["op"] == "update":
+                d.update_from_stream([W.chunk(o["kid"], o["neg"], o["pos"])])
+            elif o["op"] == "bare":
+                d.add_bare_global(o["neg"], o["pos"])
+            elif o["op"] == "merge":
+                d.merge(rebuild(o["ops"]))
+            elif o["op"] == "optimize":
+                d.optimize()
+        return d
+
+    def U(b, kid, neg, pos):
+        return {"b": b, "op": "update", "kid": kid, "neg": neg, "pos": pos}
+
+    def G(b, neg, pos):
+        return {"b": b, "op": "bare", "neg": neg, "pos": pos}
+
+    scripts = [
+        # clone of a mutable dict, then both are fed: a reset on one side, package entries on the other
+        [G(0, [], ["a", "foo_a"]), U(0, 1, ["a"], ["b"]), {"b": 0, "op": "fork", "unfreeze": False}, G(1, ["*"], ["bar_x"]), U(0, 2, [], ["foo_b"]),
+         G(1, ["foo_*"], []), U(1, 1, [], ["foobar"]), G(0, [], ["bar_x"])],
+        [U(0, 5, [], ["a"]), U(0, 1, [], ["b"]), {"b": 0, "op": "fork", "unfreeze": True}, U(0, 5, ["a"], []), U(1, 1, ["b"], ["foo_a"]),
+         {"b": 0, "op": "optimize", "cache": False}, {"b": 1, "op": "freeze"}],
+        # frozen source: a shared clone, an unfrozen one that is fed, a second generation
+        [G(0, [], ["a"]), U(0, 3, ["a"], ["foo_a"]), {"b": 0, "op": "freeze"}, {"b": 0, "op": "fork", "unfreeze": False},
+         {"b": 0, "op": "fork", "unfreeze": True}, G(2, ["foo_*"], ["b"]), {"b": 2, "op": "fork", "unfreeze": False}, U(3, 1, ["b"], []), U(2, 2, [], ["bar_x"])],
+        # a live branch merged into another one and fed afterwards
+        [U(0, 1, [], ["a"]), {"b": 0, "op": "fork", "unfreeze": False}, G(1, [], ["b"]), {"b": 0, "op": "merge_branch", "src": 1}, G(1, ["*"], []),
+         U(1, 1, [], ["foo_a"]), U(0, 5, [], ["foo_b"])],
+    ]
+    if ctx.replay_cases:
+        scripts = [c["fork_script"] for c in ctx.replay_cases if "fork_script" in c] + scripts
+    scripts += [gen_script() for _ in range(ctx.n(500, 12000))]
+    freqs, fmeta = [], []
+    for script in scripts:
+        try:
+            br = run_script(script)
+        except Exception as e:
+            ctx.violation({"fork_script": script}, f"the operations raised {type(e).__name__}: {e}")
+            continue
+        for bi, (d, ops) in enumerate(br):
+            queries = []
+            for p in W.pkgs:
+                pre = rng.sample(NAMES, rng.choice([0, 0, 1, 2]))
+                queries.append({"key": p.key, "match": match_sets[str(p)], "pre": pre})
+            freqs.append({"cmd": "c11.history", "ops": ops, "keys": [[k, v] for k, v in W.cp_kid.items()], "queries": queries, "probes": PROBES})
+            fmeta.append((script, len(br), bi, d, ops, queries))
+    nfork = 0
+    for (script, nbr, bi, d, ops, queries), rep in zip(fmeta, ctx.model(freqs)):
+        case = {"fork_script": script, "branch": bi, "entries_fed_to_this_branch": ops}
+        if rep == "bad-op":
+            ctx.mismatch(case, "driver rejected the history")
+            continue
+        first_fork = next((i for i, st in enumerate(script) if st["op"] == "fork"), len(script))
+        fed_after = sum(1 for st in script[first_fork:] if st["op"] in ("update", "bare", "merge_branch", "merge_new"))
+        if bi == 0:
+            nfork += 1
+            ctx.count("fork_branches_%d" % nbr)
+            ctx.count("fork_fed_after_first_fork_%s" % min(fed_after, 6))
+        ctx.case(case, nbr >= 2 and fed_after >= 1, key="F|%d|%r" % (bi, script))
+        try:
+            fresh = rebuild(ops)
+        except Exception as e:
+            ctx.violation(case, f"feeding a fresh dict this branch's entries raised {type(e).__name__}: {e}")
+            continue
+        for p, q, out in zip(W.pkgs, queries, rep["out"]):
+            qc = dict(case, pkg=str(p), pre_defaults=q["pre"])
+            try:
+                got = set(d.render_pkg(p, q["pre"]))
+                alone = set(fresh.render_pkg(p, q["pre"]))
+            except Exception as e:
+                ctx.violation(qc, f"render_pkg raised {type(e).__name__}: {e}")
+                continue
+            ctx.evaluations += 2
+            bad = next((x for x, h in zip(PROBES, out["holds"]) if (x in got) != h), None)
+            if bad is not None:
+                ctx.violation(qc, f"flag {bad!r}: branch {bi} of {nbr} renders {sorted(got)}; applying the entries fed to this branch in order says "
+                                  f"{bad!r} is {bad not in got} (a fresh dict fed only these entries renders {sorted(alone)})")
+                continue
+            if got != alone:
+                ctx.violation(qc, f"branch {bi} of {nbr} renders {sorted(got)}; a fresh dict fed only this branch's entries renders {sorted(alone)}")
+                continue
+            if sorted(got) != sorted(out["render"]):
+                ctx.mismatch(qc, f"render_pkg gives {sorted(got)}, the model {sorted(out['render'])}")
+    ctx.extra["forked_histories"] = nfork
 
 
     # ------------------------------------------------------------------ the token-line level
